@@ -45,9 +45,9 @@ def gen_case(tier):
         "seed": st.binary(min_size=64, max_size=64), "decoy": st.binary(min_size=64, max_size=64),
         "testnet": st.booleans(),
         "account": st.one_of(st.sampled_from([0, 0, 1, H - 2]), st.integers(0, H - 2)),
-        "start": st.one_of(st.sampled_from([0, 1, 5]), st.integers(0, H - 5)),
+        "start": st.one_of(st.sampled_from([0, 1, 5, H - 2, H - 1]), st.integers(0, H - 5)),
         "rows": st.sampled_from([0, 0, 1, 2, 3, -1]),
-        "cli": st.booleans(),
+        "cli": st.booleans(), "cli_file": st.booleans(),
     })
 
 
@@ -222,14 +222,20 @@ def check_case(case, ctx):
         with open(fp) as f:
             outputs.append(("export_wallet() file", json.load(f)))
         if case["cli"]:
+            to_file = bool(case.get("cli_file"))
             argv = (["--paranoia", "--account", str(account), "--interval", str(interval[0]), str(interval[1])]
+                    + (["--file", "cli-out.json"] if to_file else [])
                     + (["--testnet"] if testnet and case["source"] != "xprv" else []) + argv_src)
             r = cli.run_main(argv, cwd=tmp)
             if r["status"] == 0:
                 try:
-                    outputs.append(("CLI --paranoia stdout", json.loads(r["out"])))
-                except ValueError:
-                    raise Violation("C15/cli/not-json", "%s: CLI stdout is not JSON: %r" % (what, r["out"][:200]))
+                    if to_file:
+                        with open(os.path.join(tmp, "cli-out.json")) as f:
+                            outputs.append(("CLI --paranoia --file output", json.load(f)))
+                    else:
+                        outputs.append(("CLI --paranoia stdout", json.loads(r["out"])))
+                except (ValueError, OSError) as e:
+                    raise Violation("C15/cli/not-json", "%s: CLI output is not JSON (%r): %r" % (what, e, r["out"][:200]))
                 for tok in re.split(r"[\s\",:\[\]{}]+", r["out"] + " " + r["err"]):
                     if tok:
                         c = C.classify(tok)
